@@ -91,3 +91,160 @@ class Addressbook_get_addressbook_description_c:
 
     def ensures(self, result):
         return result == stored_description(self.store) and effect_names() == []
+
+
+# ---------------------------------------------------------------------------- GitStore setters
+# (modifies lists ghost_cfg although the bodies reach the metadata file only through the opaque
+# save callback: a caller must not assume the metadata entry is unchanged after a set)
+def set_value(v):
+    """What a getter answers after set(v): v itself; None and "" both mean 'unset'."""
+    return None if (v is None or v == "") else v
+
+
+@contract("xandikos.store.git.GitStore.set_displayname", params={"self": "obj:xandikos.store.git.GitStore", "displayname": "opt[str]"},
+          modifies=["self.repo", "self.ghost_cfg"], may_raise=["KeyError"], inline_calls=["xandikos.store.git.GitStore.config"],
+          effects=[["metadata_write", "self"]])
+class GitStore_set_displayname_c:
+    """One metadata write, through whichever form the collection uses; with the git-config form
+    the value reads back at once (the file form's persist step is the save_config contract)."""
+
+    def requires(self):
+        return cfg_ok(self)
+
+    def ensures(self, displayname):
+        return (effect_names() == ["metadata_write"]
+                and implies(repo_has_meta(self.repo),
+                            store_opt(self, b"xandikos/displayname", "DEFAULT/displayname") == set_value(displayname)))
+
+
+@contract("xandikos.store.git.GitStore.set_comment", params={"self": "obj:xandikos.store.git.GitStore", "comment": "opt[str]"},
+          modifies=["self.repo", "self.ghost_cfg"], may_raise=["KeyError"], inline_calls=["xandikos.store.git.GitStore.config"],
+          effects=[["metadata_write", "self"]])
+class GitStore_set_comment_c:
+    def requires(self):
+        return cfg_ok(self)
+
+    def ensures(self, comment):
+        return (effect_names() == ["metadata_write"]
+                and implies(repo_has_meta(self.repo),
+                            store_opt(self, b"xandikos/comment", "DEFAULT/comment") == set_value(comment)))
+
+
+@contract("xandikos.store.git.GitStore.set_color", params={"self": "obj:xandikos.store.git.GitStore", "color": "opt[str]"},
+          modifies=["self.repo", "self.ghost_cfg"], may_raise=["KeyError"], inline_calls=["xandikos.store.git.GitStore.config"],
+          effects=[["metadata_write", "self"]])
+class GitStore_set_color_c:
+    def requires(self):
+        return cfg_ok(self)
+
+    def ensures(self, color):
+        return (effect_names() == ["metadata_write"]
+                and implies(repo_has_meta(self.repo),
+                            store_opt(self, b"xandikos/color", "DEFAULT/color") == set_value(color)))
+
+
+@contract("xandikos.store.git.GitStore.set_source_url", params={"self": "obj:xandikos.store.git.GitStore", "url": "opt[str]"},
+          modifies=["self.repo", "self.ghost_cfg"], may_raise=["KeyError"], inline_calls=["xandikos.store.git.GitStore.config"],
+          effects=[["metadata_write", "self"]])
+class GitStore_set_source_url_c:
+    def requires(self):
+        return cfg_ok(self)
+
+    def ensures(self, url):
+        return (effect_names() == ["metadata_write"]
+                and implies(repo_has_meta(self.repo),
+                            store_opt(self, b"xandikos/source", "DEFAULT/source") == set_value(url)))
+
+
+@contract("xandikos.store.git.GitStore.set_description", params={"self": "obj:xandikos.store.git.GitStore", "description": "opt[str]"},
+          modifies=["self.repo", "self.ghost_cfg"], may_raise=["KeyError"], inline_calls=["xandikos.store.git.GitStore.config"],
+          effects=[["metadata_write", "self"]])
+class GitStore_set_description_c:
+    def requires(self):
+        return cfg_ok(self)
+
+    def ensures(self, description):
+        return (effect_names() == ["metadata_write"]
+                and implies(repo_has_meta(self.repo), stored_description(self) == set_value(description)))
+
+
+# ---------------------------------------------------------------------------- collection setters
+@contract("xandikos.web.StoreBasedCollection.set_displayname", params={"self": "obj:xandikos.web.StoreBasedCollection", "displayname": "opt[str]"},
+          modifies=["self.store.repo", "self.store.ghost_cfg"], may_raise=["KeyError"])
+class Collection_set_displayname_c:
+    def requires(self):
+        return cfg_ok(self.store)
+
+    def ensures(self, displayname):
+        return (effect_names() == ["metadata_write"] and effect_arg(0, 1) == self.store
+                and implies(repo_has_meta(self.store.repo),
+                            store_opt(self.store, b"xandikos/displayname", "DEFAULT/displayname") == set_value(displayname)))
+
+
+@contract("xandikos.web.StoreBasedCollection.set_comment", params={"self": "obj:xandikos.web.StoreBasedCollection", "comment": "opt[str]"},
+          modifies=["self.store.repo", "self.store.ghost_cfg"], may_raise=["KeyError"])
+class Collection_set_comment_c:
+    def requires(self):
+        return cfg_ok(self.store)
+
+    def ensures(self, comment):
+        return (effect_names() == ["metadata_write"] and effect_arg(0, 1) == self.store
+                and implies(repo_has_meta(self.store.repo),
+                            store_opt(self.store, b"xandikos/comment", "DEFAULT/comment") == set_value(comment)))
+
+
+@contract("xandikos.web.CalendarCollection.set_calendar_color", params={"self": "obj:xandikos.web.CalendarCollection", "color": "opt[str]"},
+          modifies=["self.store.repo", "self.store.ghost_cfg"], may_raise=["KeyError"])
+class Calendar_set_calendar_color_c:
+    def requires(self):
+        return cfg_ok(self.store)
+
+    def ensures(self, color):
+        return (effect_names() == ["metadata_write"] and effect_arg(0, 1) == self.store
+                and implies(repo_has_meta(self.store.repo), stored_color(self.store) == set_value(color)))
+
+
+@contract("xandikos.web.SubscriptionCollection.set_calendar_color", params={"self": "obj:xandikos.web.SubscriptionCollection", "color": "opt[str]"},
+          modifies=["self.store.repo", "self.store.ghost_cfg"], may_raise=["KeyError"])
+class Subscription_set_calendar_color_c:
+    def requires(self):
+        return cfg_ok(self.store)
+
+    def ensures(self, color):
+        return (effect_names() == ["metadata_write"] and effect_arg(0, 1) == self.store
+                and implies(repo_has_meta(self.store.repo), stored_color(self.store) == set_value(color)))
+
+
+@contract("xandikos.web.AddressbookCollection.set_addressbook_color", params={"self": "obj:xandikos.web.AddressbookCollection", "color": "opt[str]"},
+          modifies=["self.store.repo", "self.store.ghost_cfg"], may_raise=["KeyError"])
+class Addressbook_set_addressbook_color_c:
+    def requires(self):
+        return cfg_ok(self.store)
+
+    def ensures(self, color):
+        return (effect_names() == ["metadata_write"] and effect_arg(0, 1) == self.store
+                and implies(repo_has_meta(self.store.repo), stored_color(self.store) == set_value(color)))
+
+
+@contract("xandikos.web.AddressbookCollection.set_addressbook_description",
+          params={"self": "obj:xandikos.web.AddressbookCollection", "description": "opt[str]"},
+          modifies=["self.store.repo", "self.store.ghost_cfg"], may_raise=["KeyError"])
+class Addressbook_set_addressbook_description_c:
+    def requires(self):
+        return cfg_ok(self.store)
+
+    def ensures(self, description):
+        return (effect_names() == ["metadata_write"] and effect_arg(0, 1) == self.store
+                and implies(repo_has_meta(self.store.repo), stored_description(self.store) == set_value(description)))
+
+
+@contract("xandikos.web.CalendarCollection.set_calendar_order", params={"self": "obj:xandikos.web.CalendarCollection", "order": "opt[str]"},
+          modifies=["self.store.repo", "self.store.ghost_cfg"], modifies_on_raise=["self.store.repo"], may_raise=["KeyError"],
+          inline_calls=["xandikos.store.git.GitStore.config"])
+class Calendar_set_calendar_order_c:
+    def requires(self):
+        return cfg_ok(self.store)
+
+    def ensures(self, order):
+        return (effect_names() == ["metadata_write"]
+                and implies(repo_has_meta(self.store.repo), stored_order(self.store) == set_value(order)))
